@@ -34,3 +34,6 @@ func newTok() unsafe.Pointer {
 	runtime.RaceRelease(p)
 	return p
 }
+
+// RaceEnabled reports whether the binary was built with -race.
+func RaceEnabled() bool { return true }
